@@ -10,6 +10,8 @@ pub mod c03;
 pub mod c04;
 pub mod c05;
 pub mod c06;
+pub mod c10;
+pub mod c16;
 pub mod tree;
 
 #[derive(Clone, Copy, Debug, Default)]
@@ -55,6 +57,8 @@ pub fn get(id: &str) -> Option<Box<dyn Check>> {
         "C04" => Some(Box::new(c04::C04)),
         "C05" => Some(Box::new(c05::C05)),
         "C06" => Some(Box::new(c06::C06)),
+        "C10" => Some(Box::new(c10::C10)),
+        "C16" => Some(Box::new(c16::C16)),
         _ => None,
     }
 }
